@@ -364,6 +364,23 @@ HANDWRITTEN_GENERIC = [
     "ResultTTree(Select(EventDataset('ds'), lambda e: (e.PRIM('A').Count(), e.SEC('B').Count())), ('na', 'nb'), 'mytree', 'out.root')",
     "ResultTTree(Select(EventDataset('ds'), lambda e: e.PRIM('A').Select(lambda j: j.pt())), 'pts', 't1', 'out.root')",
 ]
+HANDWRITTEN_GENERIC += [
+    # aggregates / First over flattened (SelectMany) sequences
+    "Select(EventDataset('ds'), lambda e: e.PRIM('A').SelectMany(lambda j: j.vals()).Count())",
+    "Select(EventDataset('ds'), lambda e: e.PRIM('A').SelectMany(lambda j: j.vals()).Sum())",
+    "Select(EventDataset('ds'), lambda e: e.PRIM('A').SelectMany(lambda j: e.SEC('B')).Count())",
+    "Select(EventDataset('ds'), lambda e: e.PRIM('A').SelectMany(lambda j: e.SEC('B').Where(lambda t: t.pt() > j.pt())).Count())",
+    "Select(EventDataset('ds'), lambda e: e.PRIM('A').SelectMany(lambda j: e.SEC('B').Select(lambda t: t.pt() + j.pt())).Sum())",
+    "Select(EventDataset('ds'), lambda e: e.PRIM('A').Select(lambda j: e.SEC('B')).SelectMany(lambda ts: ts).Count())",
+    "Select(EventDataset('ds'), lambda e: e.PRIM('A').SelectMany(lambda j: j.vals()).Where(lambda v: v > 1).Count())",
+    "Select(EventDataset('ds'), lambda e: e.PRIM('A').SelectMany(lambda j: j.vals()).Aggregate(0.0, lambda acc, v: acc + v))",
+    "Select(Where(EventDataset('ds'), lambda e: e.PRIM('A').SelectMany(lambda j: j.vals()).Count() > 0), lambda e: e.PRIM('A').SelectMany(lambda j: j.vals()).First())",
+    "Select(EventDataset('ds'), lambda e: e.PRIM('A').SelectMany(lambda j: j.vals()).First())",
+    "Select(EventDataset('ds'), lambda e: e.PRIM('A').Select(lambda j: e.SEC('B').SelectMany(lambda t: t.vals()).Count()))",
+    "Select(EventDataset('ds'), lambda e: (e.PRIM('A').SelectMany(lambda j: j.vals()).Count(), e.PRIM('A').Count()))",
+    "Select(EventDataset('ds'), lambda e: e.PRIM('A').SelectMany(lambda j: j.vals()))",
+    "Select(EventDataset('ds'), lambda e: e.PRIM('A').SelectMany(lambda j: e.SEC('B').Select(lambda t: t.pt() * j.pt())))",
+]
 HANDWRITTEN = {
     "atlas": [
         "Select(EventDataset('ds'), lambda e: e.EventInfo('EI').runNumber())",
@@ -915,4 +932,91 @@ def c09_programs(backend, tier):
     ]
     for q in tops:
         add(q, ("must_raise", "top"))
+    return out
+
+
+# ------------------------------------------------------------------ C11: injected C++ functions at call sites
+def c11_programs(backend):
+    import z3
+    from .model import CollV, Num, ObjV, real
+    from .ref import RSeq
+    v = VOCAB[backend]
+    P, S, E = v["prim"], v["sec"], v["prim_cls"]
+    out = []
+
+    def prog(q, fns, tags=()):
+        q = q.replace("PRIM", P).replace("SEC", S)
+        dm = datamodel_for(q, backend)
+        for f in fns:
+            dm.cpp_functions.append(f)
+        out.append(Program(with_metadata(q, dm), backend, dm, src=q, tags=tuple(tags)))
+    twice = cpp_function_md("twice", ["x"], ["double result = x * 2;"])
+    twice["ref_lambda"] = lambda ref, a, g: Num("double", real(a[0]) * 2)
+    twice["py_lambda"] = lambda cref, a: ("double", float(a[0][1]) * 2)
+    addmul = cpp_function_md("addmul", ["x", "y"], ["auto t = x + y;", "double result = t * 3;"])
+    addmul["ref_lambda"] = lambda ref, a, g: Num("double", (real(a[0]) + real(a[1])) * 3)
+    addmul["py_lambda"] = lambda cref, a: ("double", (float(a[0][1]) + float(a[1][1])) * 3)
+    # hygiene hazards: formals inside longer words, a formal named like a local of the code
+    hyg = cpp_function_md("hyg", ["pt", "eta"], ["auto pt_gev = pt / 1000.0;", "auto theta = eta * 2;", "double result = pt_gev + theta - pt;"])
+    hyg["ref_lambda"] = lambda ref, a, g: Num("double", real(a[0]) / 1000 + real(a[1]) * 2 - real(a[0]))
+    hyg["py_lambda"] = lambda cref, a: ("double", float(a[0][1]) / 1000.0 + float(a[1][1]) * 2 - float(a[0][1]))
+    other_result = cpp_function_md("resn", ["x"], ["double my_res = x + 1;"], result="my_res")
+    other_result["ref_lambda"] = lambda ref, a, g: Num("double", real(a[0]) + 1)
+    other_result["py_lambda"] = lambda cref, a: ("double", float(a[0][1]) + 1)
+    intfn = cpp_function_md("inti", ["x"], ["int result = x + 1;"], ret="int")
+    intfn["ref_lambda"] = lambda ref, a, g: Num("int", __import__("vlib.tv.model", fromlist=["toint"]).toint(a[0]) + 1)
+    intfn["py_lambda"] = lambda cref, a: ("int", int(a[0][1]) + 1)
+    # method style: the receiver replaces the method object
+    meth = cpp_function_md("scaled", ["s"], ["double result = obj_x->pt() * s;" if backend == "atlas" else "double result = obj_x.pt() * s;"],
+                           method_object="obj_x", instance_object=E)
+
+    def meth_ref(ref, a, g):
+        recv = a[0]
+        ptv = ref.ev.call_method(ref.ctx, recv.cls, ref.dm.method(recv.cls, "pt"), recv.oid, [])
+        return Num("double", real(ptv) * real(a[1]))
+    meth["ref_lambda"] = meth_ref
+    meth["py_lambda"] = lambda cref, a: ("double", cref.call_method(a[0].cls, cref.dm.method(a[0].cls, "pt"), a[0].oid, [])[1] * float(a[1][1]))
+    # collection-returning function
+    pair = cpp_function_md("pair", ["x"], ["std::vector<double> result;", "result.push_back(x);", "result.push_back(x * 2);"], collection=True)
+    pair["ref_lambda"] = lambda ref, a, g: RSeq([(z3.BoolVal(True), Num("double", real(a[0]))), (z3.BoolVal(True), Num("double", real(a[0]) * 2))])
+    pair["py_lambda"] = lambda cref, a: [("double", float(a[0][1])), ("double", float(a[0][1]) * 2)]
+    qs = [
+        ("Select(EventDataset('ds'), lambda e: e.PRIM('A').Select(lambda j: twice(j.pt())))", [twice]),
+        ("Select(EventDataset('ds'), lambda e: e.PRIM('A').Select(lambda j: twice(j.pt()) + twice(j.eta())))", [twice]),
+        ("Select(EventDataset('ds'), lambda e: e.PRIM('A').Select(lambda j: twice(twice(j.pt()))))", [twice]),
+        ("Select(EventDataset('ds'), lambda e: e.PRIM('A').Select(lambda j: addmul(j.eta(), j.pt())))", [addmul]),
+        ("Select(EventDataset('ds'), lambda e: e.PRIM('A').Select(lambda j: addmul(twice(j.eta()), addmul(j.pt(), 1))))", [twice, addmul]),
+        ("Select(EventDataset('ds'), lambda e: e.PRIM('A').Where(lambda j: twice(j.pt()) > 3).Select(lambda j: addmul(j.eta(), j.pt())))", [twice, addmul]),
+        ("Select(EventDataset('ds'), lambda e: e.PRIM('A').Select(lambda j: twice(j.pt())).Sum())", [twice]),
+        ("Select(EventDataset('ds'), lambda e: e.PRIM('A').Select(lambda j: e.SEC('B').Where(lambda t: twice(t.pt()) > j.pt()).Count()))", [twice]),
+        ("Select(EventDataset('ds'), lambda e: e.PRIM('A').Select(lambda j: twice(j.pt()) if twice(j.eta()) > 1 else addmul(j.pt(), j.eta())))", [twice, addmul]),
+        ("Select(EventDataset('ds'), lambda e: e.PRIM('A').Select(lambda j: j.pt() > 1 and twice(j.eta()) > 1))", [twice]),
+        ("Select(SelectMany(EventDataset('ds'), lambda e: e.PRIM('A')), lambda j: (twice(j.pt()), j.eta()))", [twice]),
+        ("Select(EventDataset('ds'), lambda e: twice(e.PRIM('A').Count()))", [twice]),
+        ("Select(EventDataset('ds'), lambda e: e.PRIM('A').Select(lambda j: hyg(j.eta(), j.pt())))", [hyg]),         # actuals named like the other formal
+        ("Select(EventDataset('ds'), lambda e: e.PRIM('A').Select(lambda j: hyg(j.pt(), j.eta())))", [hyg]),
+        ("Select(EventDataset('ds'), lambda e: e.PRIM('A').Select(lambda j: hyg(j.pt() + j.eta(), j.eta() - j.pt())))", [hyg]),
+        ("Select(EventDataset('ds'), lambda e: e.PRIM('A').Select(lambda j: resn(j.pt())))", [other_result]),
+        ("Select(EventDataset('ds'), lambda e: e.PRIM('A').Select(lambda j: inti(j.nTrk())))", [intfn]),
+        ("Select(EventDataset('ds'), lambda e: e.PRIM('A').Select(lambda j: j.scaled(2)))", [meth]),
+        ("Select(EventDataset('ds'), lambda e: e.PRIM('A').Select(lambda j: j.scaled(j.eta()) + twice(1)))", [meth, twice]),
+        ("Select(EventDataset('ds'), lambda e: e.PRIM('A').Select(lambda j: pair(j.pt())))", [pair]),
+        ("Select(EventDataset('ds'), lambda e: e.PRIM('A').Select(lambda j: pair(j.pt()).Sum()))", [pair]),
+        ("Select(EventDataset('ds'), lambda e: e.PRIM('A').SelectMany(lambda j: pair(j.pt())).Count())", [pair]),
+        ("Select(EventDataset('ds'), lambda e: e.PRIM('A').Select(lambda j: DeltaR(j.eta(), j.phi(), 0.5, 1.0)))", []),
+        ("Select(EventDataset('ds'), lambda e: e.PRIM('A').Select(lambda j: e.SEC('B').Where(lambda t: DeltaR(j.eta(), j.phi(), t.eta(), t.phi()) < 1.5).Count()))", []),
+        ("Select(EventDataset('ds'), lambda e: e.PRIM('A').Select(lambda j: DeltaR(j.phi(), j.eta(), j.eta(), j.phi())))", []),  # actual texts equal other formals' roles
+    ]
+    for q, fns in qs:
+        prog(q, fns, tags=("cppfn",))
+    bad = [
+        ("Select(EventDataset('ds'), lambda e: e.PRIM('A').Select(lambda j: twice(j.pt(), 1)))", [twice]),
+        ("Select(EventDataset('ds'), lambda e: e.PRIM('A').Select(lambda j: twice()))", [twice]),
+        ("Select(EventDataset('ds'), lambda e: e.PRIM('A').Select(lambda j: j.twice(1)))", [twice]),
+        ("Select(EventDataset('ds'), lambda e: e.PRIM('A').Select(lambda j: scaled(j, 1)))", [meth]),
+        ("Select(EventDataset('ds'), lambda e: e.PRIM('A').Select(lambda j: j.scaled()))", [meth]),
+        ("Select(EventDataset('ds'), lambda e: e.PRIM('A').Select(lambda j: DeltaR(j.eta(), j.phi(), 1.0)))", []),
+    ]
+    for q, fns in bad:
+        prog(q, fns, tags=("must_raise", "cppfn"))
     return out
